@@ -1,15 +1,114 @@
 (** Property C14 — annotations mean the same however written and reach the graphs unchanged.
-    Only statements, each closed by [exact]; the proofs live in Dialect/DialectProofs.v. *)
+    Only statements, each closed by [exact]; the proofs live in Dialect/DialectProofs.v.
+    [parse_dialect] is the Impl model of dialects._parse_dialect_string (tied to /repo by the per-run
+    correspondence), [graph_base_dialect]/[fragment_node_dialect] are the tables GENERATED from
+    dialects.py, [doc_coarse]/[doc_atomic] the documented tables; every theorem is for every float()
+    oracle [fo].  The propagation clauses (coarse node / every copy of a fragment atom) are evaluated at
+    run time on the implementation's graphs (Dialect/DialectCheck.v), not proved here. *)
 From Coq Require Import String.
 From Coq Require Import List Ascii ZArith Bool Permutation.
-From CGV Require Import Base.PyBase Base.PyVal Gen.DialectGen Dialect.DialectImpl Dialect.DialectDefs Dialect.DialectProofs.
+From CGV Require Import Base.PyBase Base.PyVal Gen.DialectGen Dialect.DialectImpl Dialect.DialectDefs
+     Dialect.DialectProofs Dialect.DialectCheck.
 Import ListNotations.
 
+(** the tables in the source say what the documentation says, and have the shape assumed below *)
 Theorem C14_generated_tables_documented :
   dialect_agrees graph_base_dialect doc_coarse = true /\ dialect_agrees fragment_node_dialect doc_atomic = true.
 Proof. exact generated_tables_documented. Qed.
 Theorem C14_generated_tables_wf : wf_dialect graph_base_dialect = true /\ wf_dialect fragment_node_dialect = true.
 Proof. exact wf_generated. Qed.
+Theorem C14_generated_tables_nodup :
+  NoDup (pnames graph_base_dialect) /\ NoDup (long_names graph_base_dialect) /\
+  NoDup (pnames fragment_node_dialect) /\ NoDup (long_names fragment_node_dialect).
+Proof. exact nodup_generated. Qed.
+Theorem C14_generated_names_clean :
+  forallb clean (pnames graph_base_dialect) = true /\ forallb clean (pnames fragment_node_dialect) = true.
+Proof. exact names_clean_generated. Qed.
+
+(** the text of a writing is split into exactly its positional values and keyword pairs *)
+Theorem C14_parse_render : forall fo dl es,
+  Forall (fun v => clean v = true) (pos_of es) -> Forall (fun kv => clean_entry kv = true) (kws_of es) ->
+  NoDup (keys (kws_of es)) -> es <> [EPos []] ->
+  parse_dialect fo dl (render_ents es) = bind_cast fo dl (pos_of es) (kws_of es).
+Proof. exact parse_render_ents. Qed.
+
+(** positional form = keyword form *)
+Theorem C14_bind_pos_kw : forall fo dl vals kws,
+  NoDup (pnames dl) -> forallb clean (pnames dl) = true ->
+  Forall (fun v => clean v = true) vals -> Forall (fun kv => clean_entry kv = true) kws ->
+  length vals <= length (params dl) ->
+  NoDup (keys (combine (pnames dl) vals ++ kws)) ->
+  vals <> [[]] \/ kws <> [] ->
+  parse_dialect fo dl (render vals kws) = parse_dialect fo dl (render [] (combine (pnames dl) vals ++ kws)).
+Proof. exact bind_pos_kw. Qed.
+
+(** keyword order is irrelevant *)
+Theorem C14_bind_perm : forall fo dl pos kws kws',
+  Forall (fun v => clean v = true) pos -> Forall (fun kv => clean_entry kv = true) kws ->
+  NoDup (keys kws) -> Permutation kws kws' -> pos <> [[]] \/ kws <> [] ->
+  res_equiv (parse_dialect fo dl (render pos kws)) (parse_dialect fo dl (render pos kws')).
+Proof. exact bind_perm. Qed.
+Theorem C14_bind_cast_perm : forall fo dl args kws kws', Permutation kws kws' -> NoDup (keys kws) ->
+  res_equiv (bind_cast fo dl args kws) (bind_cast fo dl args kws').
+Proof. exact bind_cast_perm. Qed.
+
+(** omitted reserved keys take the defaults; the generated tables give charge 0.0, weight 1.0 and
+    leave fragname / chiral absent *)
+Theorem C14_bind_defaults : forall fo dl args kws a p,
+  NoDup (pnames dl) -> NoDup (long_names dl) -> bind_cast fo dl args kws = Ok a ->
+  In p (skipn (length args) (params dl)) -> kw_get (pname p) kws = None ->
+  (pdefault p = None -> ~ In (long_name dl (pname p)) (keys kws)) ->
+  aget (long_name dl (pname p)) a = pdefault p.
+Proof. exact bind_defaults. Qed.
+Theorem C14_defaults_generated : forall fo name,
+  bind_cast fo graph_base_dialect [name] [] =
+    Ok [(S "fragname", VStr name); (S "charge", VFlt (S "0.0")); (S "weight", VFlt (S "1.0"))] /\
+  bind_cast fo fragment_node_dialect [] [] = Ok [(S "weight", VFlt (S "1.0"))].
+Proof. exact defaults_generated. Qed.
+
+(** reserved numeric keys are floats (of the oracle's value), reserved text keys and free keys verbatim *)
+Theorem C14_bind_numeric : forall fo dl args kws a p v,
+  NoDup (pnames dl) -> NoDup (long_names dl) -> bind_cast fo dl args kws = Ok a ->
+  (exists i, nth_error (params dl) i = Some p /\ nth_error args i = Some v) \/
+  (In p (skipn (length args) (params dl)) /\ kw_get (pname p) kws = Some v) ->
+  match ptype p with
+  | TFloat => exists r, fo v = Some r /\ aget (long_name dl (pname p)) a = Some (VFlt r)
+  | TStr => aget (long_name dl (pname p)) a = Some (VStr v)
+  end.
+Proof. exact bind_numeric. Qed.
+Theorem C14_bind_free : forall fo dl args kws a k v,
+  NoDup (long_names dl) -> bind_cast fo dl args kws = Ok a -> NoDup (keys kws) -> In (k, v) kws ->
+  ~ In k (pnames dl) -> ~ In k (long_names dl) -> aget k a = Some (VStr v).
+Proof. exact bind_free. Qed.
+
+(** known finding (class coarse_fragment_atom_dialect): a coarse node inside a fragment definition is
+    annotated through the atom dialect; witness [#X;q=1]: the documentation promises charge 1.0, the code
+    (model [coarse_fragment_node], validated against the implementation on every run) keeps q as text *)
+Theorem C14_coarse_fragment_refuted :
+  let fo := fo_of_table [(S "1", Some (S "1.0"))] in
+  exists a e, coarse_fragment_node fo (S "X;q=1") = Ok a /\
+              expected fo doc_coarse [(S "fragname", S "X"); (S "q", S "1")] [] = Some e /\
+              coarse_fragment_dialect_class {| a_assign := [(S "fragname", S "X"); (S "q", S "1")]; a_free := [];
+                                               a_ents := [EPos (S "X"); EKw (S "q") (S "1")] |} = true /\
+              aget (S "charge") e = Some (VFlt (S "1.0")) /\
+              aget (S "charge") a = Some (VFlt (S "0.0")) /\ aget (S "q") a = Some (VStr (S "1")).
+Proof. eexists. eexists. repeat split; vm_compute; reflexivity. Qed.
+
+(** non-vacuity of the implications above *)
+Example C14_nonvacuous :
+  parse_dialect fo_demo graph_base_dialect (S "A;+1;1e-1;mass=72") =
+    Ok [(S "mass", VStr (S "72")); (S "fragname", VStr (S "A")); (S "charge", VFlt (S "1.0")); (S "weight", VFlt (S "0.1"))] /\
+  parse_dialect fo_demo graph_base_dialect (S "fragname=A;q=+1;w=1e-1;mass=72") =
+    parse_dialect fo_demo graph_base_dialect (S "A;+1;1e-1;mass=72") /\
+  render [S "A"; S "+1"; S "1e-1"] [(S "mass", S "72")] = S "A;+1;1e-1;mass=72".
+Proof. exact pos_kw_example. Qed.
 
 Print Assumptions C14_generated_tables_documented.
-Print Assumptions C14_generated_tables_wf.
+Print Assumptions C14_parse_render.
+Print Assumptions C14_bind_pos_kw.
+Print Assumptions C14_bind_perm.
+Print Assumptions C14_bind_defaults.
+Print Assumptions C14_defaults_generated.
+Print Assumptions C14_bind_numeric.
+Print Assumptions C14_bind_free.
+Print Assumptions C14_coarse_fragment_refuted.
